@@ -1,5 +1,5 @@
 (* Proofs/Selective.v -- lemmas about Model/Selective.v (C16). *)
-From GV Require Import Base.Str Model.Selective.
+From GV Require Import Base.Str Gen.SelectiveKw Model.Selective.
 From Coq Require Import Lia.
 Open Scope list_scope.
 
@@ -822,3 +822,17 @@ Proof.
   split; [vm_compute; tauto|]. split; [simpl; left; reflexivity|].
   split; [simpl; right; left; reflexivity|]. split; reflexivity.
 Qed.
+
+(* ---------------------------------------------------------------- pins (T0): what Gen/SelectiveKw.v must say *)
+(* the model's client_name / async_client_name / client_method_name / make_private / svc_internal /
+   internal_svc / validate were written against these source fragments; a change makes this file fail *)
+Example pin_naming :
+  client_name_parts = ["Base"; ""; "Client"] /\
+  async_client_name_parts = ["Base"; ""; "AsyncClient"] /\
+  client_method_name_src = "name = self.name + '_' if self.name.lower() in keyword.kwlist else self.name; return make_private(name) if self.is_internal else name" /\
+  make_private_src = "return object_name if object_name.startswith('_') else f'_{object_name}'" /\
+  service_is_internal_src = "return any((m.is_internal for m in self.methods.values()))" /\
+  method_with_internal_src = "if self.ident.proto in public_methods: return self; return dataclasses.replace(self, is_internal=True)" /\
+  settings_error_strings = ["Duplicate version"; "Method does not exist."; "Mismatched version for method."; "selective_gapic_generation"] /\
+  mem_str "import" kwlist = true /\ mem_str "get" kwlist = false.
+Proof. repeat split; reflexivity. Qed.
